@@ -629,7 +629,7 @@ Proof.
   eapply wf_bind; [apply wf_attribute|]. intros a Hok. destruct a as [a|].
   2:{ apply wfK_wf. apply wfK_ret. exact Ha. }
   destruct (has_attr (tsource (a_name a)) acc).
-  { eapply wf_bind; [apply wf_previous|]. intros p _. apply wf_error. }
+  { apply wfK_wf. apply wfK_error_at. apply attr_ok_name. exact Hok. }
   assert (Ha' : Forall attr_ok (acc ++ [a])) by (apply Forall_app; split; [exact Ha|constructor; [exact Hok|constructor]]).
   eapply wf_bind; [apply wf_match_token|]. intros c _. destruct c.
   - apply Hattrs. exact Ha'.
